@@ -58,6 +58,7 @@ type StepCase struct {
 	HostFaults []HostFault `json:"host_faults,omitempty"`
 	Debugger   bool        `json:"debugger"`
 	TraceLimit int         `json:"trace_limit"`
+	Deep       bool        `json:"deep,omitempty"` // thorough tier: larger programs are still swept at every step
 }
 
 type JEntry struct {
@@ -1052,6 +1053,10 @@ func genStepCase(t *rapid.T, tier string) *StepCase {
 	c.Debugger = rapid.Bool().Draw(t, "dbg")
 	c.TraceLimit = rapid.IntRange(0, 3).Draw(t, "trace")
 	budget := rapid.IntRange(4, 40).Draw(t, "budget")
+	if tier == "thorough" {
+		c.Deep = true
+		budget = rapid.IntRange(4, 90).Draw(t, "budget_deep")
+	}
 	g := newPG(t, budget, c.StackLimit > 0, c.ClassB)
 	c.Decls, c.Body = g.Parts()
 	if g.nHostF > 0 {
@@ -1386,7 +1391,11 @@ func (stepEngine) Exec(ci interface{}, st *Stats) (*Violation, interface{}, bool
 		st.Exhaustive++
 		n0 := r0.Steps
 		ks := make([]int, 0, n0+1)
-		if n0 <= 400 {
+		sweepAll := 400
+		if c.Deep {
+			sweepAll = 2000
+		}
+		if n0 <= sweepAll {
 			for k := 0; k <= n0; k++ {
 				ks = append(ks, k)
 			}
@@ -1427,7 +1436,11 @@ func (stepEngine) Exec(ci interface{}, st *Stats) (*Violation, interface{}, bool
 		}
 		// host-function panic at every host call of the program (the analogue of
 		// the interrupt sweep for the "panic from a host function" clause)
-		if m := r0.run.anyCalls; m > 0 && m <= 150 {
+		hostAll := 150
+		if c.Deep {
+			hostAll = 600
+		}
+		if m := r0.run.anyCalls; m > 0 && m <= hostAll {
 			for _, kind := range []string{"go_string", "go_error", "js_custom"} {
 				for j := 1; j <= m; j++ {
 					cc := *c
